@@ -5,8 +5,8 @@ CONSTANTS
   Vals = {0, 1}
   Tombs = {0, 2}
   Texts = {"", "x"}
-  MaxPrior = 2
+  MaxPrior = 1
   MaxIn = 2
-  MaxBatch = 3
+  MaxBatch = 2
   MaxTimes = {0, 1}
 INVARIANTS Dump
